@@ -368,7 +368,15 @@ extern "C" fn on_fault(sig: libc::c_int, info: *mut libc::siginfo_t, _ctx: *mut 
 static mut ALT_STACK: [u8; 65536] = [0; 65536];
 
 #[allow(static_mut_refs)]
+/// A failed allocation ends the process at once (the default hook symbolises
+/// and prints a backtrace first, which costs more than a whole case).
+fn oom_hook(_l: std::alloc::Layout) {
+    arena::st().track = false;
+    std::process::abort();
+}
+
 pub fn install_fault_handlers() {
+    std::alloc::set_alloc_error_hook(oom_hook);
     unsafe {
         let ss = libc::stack_t {
             ss_sp: ALT_STACK.as_mut_ptr() as *mut libc::c_void,
